@@ -16,15 +16,21 @@ def run(ctx):
     ]
     checks_variants = [[], [{"kind": "S", "col": 1, "veto": "", "fail": False}], [{"kind": "U", "rule": "a"}]]
 
-    def runs_for(table, limit):
-        return [
+    def runs_for(table, limit, with_fault=False):
+        runs = [
             {"kind": "R", "api": "f", "mode": "yield", "limit": limit, "rows": table},
             {"kind": "R", "api": "c", "mode": "raise", "limit": limit, "rows": table, "close": True},
             {"kind": "R", "api": "c", "mode": "continue", "limit": limit, "rows": table, "close": True},
             {"kind": "R", "api": "v", "mode": "raise", "limit": limit, "stop": limit, "rows": table},
+            # the validate-only API stops after N data rows: what follows them is not even read, so a container that is
+            # malformed after its last row is a problem only if the limit lets validate() get there
             # a second pass over the same data with the same Reader object (the first one abandoned after a row)
             {"kind": "R", "api": "c", "mode": "yield", "limit": limit, "rows": table, "close": True, "pre": 1},
         ]
+        if with_fault:
+            # (the exhaustive delimited scenarios only) a container that is malformed after its last row
+            runs.append({"kind": "R", "api": "v", "mode": "raise", "limit": limit, "stop": limit, "rows": table, "fault": True})
+        return runs
 
     max_rows = 5 if ctx.tier == "quick" else 6
     for nrows in range(1, max_rows + 1):
@@ -37,7 +43,7 @@ def run(ctx):
                         table = [["%d" % (7 + (k % 2)), "ok"] for k in range(nrows)]
                         table[badpos] = ["x", "ok"] if badpos % 2 == 0 else ["7", "n!"]
                         scns.append({"format": "delimited", "allowed": None, "fields": base_fields, "checks": checks, "header": header,
-                                     "runs": runs_for(table, limit), "bad": badpos})
+                                     "runs": runs_for(table, limit, with_fault=True), "bad": badpos})
     n_exh = len(scns)
     n = 300 if ctx.tier == "quick" else 4000
     for _ in range(n):
